@@ -488,7 +488,6 @@ fn c09_cost_algebra_3_3() {
     algebra::<3, 3>();
 }
 
-
 // ---------------------------------------------------------------------------------------------------------
 // C15: `choose_best_result` is the reducer handed to rayon's fold/reduce. Its algebra is decided here.
 
@@ -513,7 +512,10 @@ fn c15_job() -> Job {
 
 fn c15_success<const N: usize>(actor: &Arc<Actor>) -> ([Cost; 6], InsertionResult) {
     let (data, cost) = any_cost::<N>();
-    (data, InsertionResult::Success(InsertionSuccess { cost, job: c15_job(), activities: vec![], actor: actor.clone() }))
+    (
+        data,
+        InsertionResult::Success(InsertionSuccess { cost, job: c15_job(), activities: vec![], actor: actor.clone() }),
+    )
 }
 
 fn c15_failure(with_job: bool) -> InsertionResult {
